@@ -129,9 +129,10 @@ CHECKS = {
     text="PARTIAL. Proved (Coq), on call lists regenerated on every run from tokenizer.py (ast) and tok_parse.c (brace-aware scan): outside "
          "four context-bounded recursions NO cycle of calls between tokenizer functions avoids the depth-limit test (_can_recurse / "
          "Tokenizer_CAN_RECURSE), and a call stack with D depth-limited calls has at most (D+1)*13 frames - for every stack, both tokenizers. "
-         "NOT proved: the quadratic work bound, the route memo, native stack size. Those are decided by measurement: ~60 size-parameterised "
-         "adversarial families (unclosed / crossed / nested openers of every construct, repeated delimiters) at doubling sizes in "
-         "crash-isolating workers: deterministic Python work counts (growth per doubling <= 2^2.7, constant frame depth), C CPU time "
+         "NOT proved: the quadratic work bound, the route memo, native stack size. Those are decided by measurement: 70 size-parameterised "
+         "adversarial families (unclosed / crossed / nested openers of every construct, repeated delimiters) plus pairs of alternating "
+         "unclosed openers out of 28 (48 random pairs quick, all 756 thorough) at sizes 8..64 then doubling, in "
+         "crash-isolating workers: deterministic Python work counts (quadratic envelope, last doubling <= 2^2.7, frame depth <= 420), C CPU time "
          "(<= 2^2.9 per doubling), tree depth, and render/filter/strip/pickle of every tree.",
     design_ref="DESIGN.md section 5, C05",
     note="Trusted: the call-graph translator (tools/gen_defs.py gen_recursion, fail-closed on unknown guard shapes); the exempt list in "
@@ -154,9 +155,10 @@ CHECKS = {
     category="proof",
     text="PARTIAL. Proved (Coq): machines whose steps touch only their own instance state yield, under EVERY interleaving, the result of "
          "their solo runs; on lists regenerated from the source: C file-scope variables are written only by module initialisation "
-         "(+ the idempotent lazy load of ParserError), the Python package has no `global` statement, every tokenizer/builder call "
+         "(+ the idempotent lazy load of ParserError), the Python package has no `global` statement and creates no Tokenizer/Builder/Parser instance at import time or on a "
+         "class, every part a Parser stores is a fresh instance made in its own __init__, every tokenizer/builder call "
          "depends only on its own instance (C06). NOT modelled: the GIL, CPython's thread safety, the memory model: validated by "
-         "8-16 threads parsing with own objects at a 1 microsecond switch interval against sequential results, both tokenizers.",
+         "8-16 threads parsing with own objects and through mwparserfromhell.parse() at a 1 microsecond switch interval against sequential results, both tokenizers.",
     design_ref="DESIGN.md section 5, C19",
     note="Trusted: the C-text scanner for file-scope variables and their writers; the stress run is testing. No axioms.",
     technique="Coq proof (interleaving independence by induction over schedules) over generated ownership facts + thread stress run (testing)"),
